@@ -632,6 +632,20 @@ example : kRun 1 4096 [] [.alloc 7 (some 0x10000), .free (0x10000 + 4096 - 7) 7,
 example : kRun 1 4096 [] [.alloc 7 (some 0x10000), .free (0x10000 + 4096 - 7) 7, .free (0x10000 + 4096 - 7) 7] = none ∧
     (kDestroy 4096 [⟨⟨0x10000, 0x10000 + 4096 - 7, 2, 7, 7⟩, true⟩]).2 = false := by decide
 
+/-! ## rebind: the allocator a container obtains for another element type -/
+
+/-- every allocator class has its own member `rebind<U>::other` naming the same template with the same non-type
+    parameters (regenerated from the four headers): a container that rebinds `AlignedAllocator<T,A>` gets
+    `AlignedAllocator<U,A>` — to which theorem `aligned_served_exact` applies with `sizeof(U)`, the same `A` — and not
+    the `MallocAllocator<U>` of the base class; `PoolAllocator<T,s>` rebinds to `PoolAllocator<U,s>`.  The theorems of
+    this file hold for every element size, hence for the rebound allocators -/
+theorem rebind_stays_in_family :
+    mallocRebindInFamily = true ∧ alignedRebindKeepsAlignment = true ∧ debugRebindInFamily = true ∧
+    paRebindKeepsPoolSize = true := ⟨rfl, rfl, rfl, rfl⟩
+
+-- the rebound AlignedAllocator<U,64> for a U of 16 bytes asks aligned_alloc for alignment 64 again
+example : alignedAllocate 16 8 64 3 osServes = .ok (64, 48) := rfl
+
 /-! ## debugalign.hh -/
 
 /-- `isAligned(p, align)` is divisibility -/
